@@ -46,6 +46,19 @@ type Nest struct {
 	// in the twin's directory only.
 	TwinSub  bool
 	TwinSkip map[string]bool
+	// OutAlg: the final step's link reports its product under this digest algorithm name only
+	// (the parent's evidence, built from Summary(), keeps sha256: the two then have no algorithm in common)
+	OutAlg string
+}
+
+func (n *Nest) outArtifacts(out map[string]string) map[string]intoto.HashObj {
+	a := Artifacts(out)
+	if n.OutAlg != "" {
+		for p, h := range a {
+			a[p] = intoto.HashObj{n.OutAlg: h["sha256"] + h["sha256"]}
+		}
+	}
+	return a
 }
 
 // OutName is the name of the final product of this layout (level specific, so
@@ -151,7 +164,7 @@ func (n *Nest) WriteLinks(dir string, dsse bool) (intoto.Metadata, error) {
 		if err := write("sub", n.Sub, Artifacts(seed), Artifacts(bin)); err != nil {
 			return nil, err
 		}
-		if err := write("final", n.Final, Artifacts(bin), Artifacts(out)); err != nil {
+		if err := write("final", n.Final, Artifacts(bin), n.outArtifacts(out)); err != nil {
 			return nil, err
 		}
 	} else {
@@ -195,7 +208,7 @@ func (n *Nest) WriteLinks(dir string, dsse bool) (intoto.Metadata, error) {
 			}
 		}
 		_, cprods := n.Child.Summary()
-		if err := write("final", n.Final, cprods, Artifacts(out)); err != nil {
+		if err := write("final", n.Final, cprods, n.outArtifacts(out)); err != nil {
 			return nil, err
 		}
 	}
